@@ -29,13 +29,22 @@ RFUNCS = ["absolute", "acos", "acosh", "asin", "asinh", "square"]
 CT = {"complex64": (np.complex64, np.float32), "complex128": (np.complex128, np.float64)}
 
 _I = {}
+# documented Context parameters that select algorithm variants (algorithms.py: safe_min_limit, safe_max_limit_coefficient,
+# use_fast2sum).  The symmetries must hold for every variant; PARAMS[0] (defaults) is what the bulk enumeration uses.
+PARAMS = [None, {"safe_min_limit": 1}, {"safe_min_limit": 10, "safe_max_limit_coefficient": 0.5}, {"safe_max_limit_coefficient": 1}, {"use_fast2sum": True}, {"use_fast2sum": False}]
+CURRENT = [0]
+
+
+def ptag():
+    p_ = PARAMS[CURRENT[0]]
+    return "" if not p_ else ":parameters[" + ",".join(f"{k}={v}" for k, v in sorted(p_.items())) + "]"
 
 
 def get_interp(fa, name, dtype):
-    key = (name, np.dtype(dtype).name)
+    key = (name, np.dtype(dtype).name, CURRENT[0])
     if key not in _I:
         try:
-            _I[key] = interp.Interp(fa, expand.expanded_graph(fa, name, dtype))
+            _I[key] = interp.Interp(fa, expand.expanded_graph(fa, name, dtype, parameters=PARAMS[CURRENT[0]]))
         except Exception as e:
             _I[key] = e
     return _I[key]
@@ -125,11 +134,11 @@ def report(part, ident, fname, cname, X, Y, got, want, mask, extra=""):
         for kv in np.unique(keys):
             sel = idx[keys == kv]
             xcl, ycl, z1 = ZN[int(kv) // 100], ZN[(int(kv) // 10) % 10], int(kv) % 10
-            sig = f"{ident}:{fname}:{cname}:in[{xcl},{ycl}]:{comp}:{'sign-of-zero' if z1 else 'value'}"
+            sig = f"{ident}:{fname}:{cname}:in[{xcl},{ycl}]:{comp}:{'sign-of-zero' if z1 else 'value'}" + ptag()
             part["counters"]["viol:" + sig] = part["counters"].get("viol:" + sig, 0) + int(len(sel)) - min(3, len(sel))
             for i in sel[:3]:
                 add_violation(part, sig, f"{ident} {fname} [{cname}] z=({X[i]!r},{Y[i]!r}): {comp} = {g[i]!r}, identity requires {w[i]!r} {extra}",
-                              {"kind": "complex", "ident": ident, "func": fname, "dtype": cname, "x": float(X[i]).hex(), "y": float(Y[i]).hex()})
+                              {"kind": "complex", "ident": ident, "func": fname, "dtype": cname, "x": float(X[i]).hex(), "y": float(Y[i]).hex(), "params": CURRENT[0]})
 
 
 def cut_mask(fname, X, Y):
@@ -230,6 +239,14 @@ def w_block(task):
         return part
     X, Y = np.meshgrid(rows, S, indexing="ij")
     check_block(part, fa, cname, X.ravel(), Y.ravel())
+    if task.get("param_rows"):
+        Xp, Yp = np.meshgrid(rows[:1], S, indexing="ij")
+        for pi in range(1, len(PARAMS)):
+            CURRENT[0] = pi
+            try:
+                check_block(part, fa, cname, Xp.ravel(), Yp.ravel())
+            finally:
+                CURRENT[0] = 0
     part["samples"].append({"block": cname, "x0": float(rows[0]).hex(), "n_x": int(len(rows)), "n_y": int(len(S))})
     return part
 
@@ -252,7 +269,11 @@ def w_real(task):
     x = x[~np.isnan(x)]
     if not len(x):
         return part
-    for fname in ("asin", "asinh", "square"):
+    variants = [(fname, 0) for fname in ("asin", "asinh", "square")]
+    if "coset" not in task or task["coset"][2] == 0:
+        variants += [("asinh", pi) for pi in range(1, len(PARAMS))]
+    for fname, pi in variants:
+        CURRENT[0] = pi
         it = get_interp(fa, fname, ft)
         if isinstance(it, Exception):
             add_violation(part, f"evaluate:{fname}:{dtname}:raises", f"{type(it).__name__}: {it}", {"kind": "real", "func": fname, "dtype": dtname, "x": float(x[0]).hex()})
@@ -269,10 +290,11 @@ def w_real(task):
             keys = zc * 10 + zs
             for kv in np.unique(keys):
                 sel = idx[keys == kv]
-                sig = f"{'even' if fname == 'square' else 'odd'}:real_{fname}:{dtname}:in[{ZN[int(kv) // 10]}]:{'sign-of-zero' if int(kv) % 10 else 'value'}"
+                sig = f"{'even' if fname == 'square' else 'odd'}:real_{fname}:{dtname}:in[{ZN[int(kv) // 10]}]:{'sign-of-zero' if int(kv) % 10 else 'value'}" + ptag()
                 part["counters"]["viol:" + sig] = part["counters"].get("viol:" + sig, 0) + int(len(sel)) - min(3, len(sel))
                 for i in sel[:3]:
-                    add_violation(part, sig, f"real {fname}({-x[i]!r}) = {b[i]!r} but f(x) = {a[i]!r}", {"kind": "real", "func": fname, "dtype": dtname, "x": float(x[i]).hex()})
+                    add_violation(part, sig, f"real {fname}({-x[i]!r}) = {b[i]!r} but f(x) = {a[i]!r}" + ptag(), {"kind": "real", "func": fname, "dtype": dtname, "x": float(x[i]).hex(), "params": CURRENT[0]})
+    CURRENT[0] = 0
     part["nontrivial"] += int((x != 0).sum())
     part["samples"].append({"real": dtname, "x0": float(x[0]).hex(), "n": int(len(x))})
     return part
@@ -291,7 +313,7 @@ def run(run):
         Sb = [int(b) for b in S.view(FMT[np.dtype(ft).name]["ui"]).astype(np.uint64)]
         step = 4 if thorough else 8
         for i in range(0, len(Sb), step):
-            tasks.append(dict(dtype=cname, S_bits=Sb, rows=[i, i + step]))
+            tasks.append(dict(dtype=cname, S_bits=Sb, rows=[i, i + step], param_rows=True))
     for ft in (np.float32, np.float64):
         for n in ("asin", "asinh", "square"):
             get_interp(fa, n, ft)
@@ -332,10 +354,15 @@ def replay(case):
         ct, ft = CT[cname]
         X = np.array([float.fromhex(case["x"])], dtype=ft)
         Y = np.array([float.fromhex(case["y"])], dtype=ft)
-        check_block(part, fa, cname, X, Y)
+        CURRENT[0] = int(case.get("params") or 0)
+        try:
+            check_block(part, fa, cname, X, Y)
+        finally:
+            CURRENT[0] = 0
         part["violations"] = [v for v in part["violations"] if v["case"].get("ident") == case.get("ident") and v["case"].get("func") == case.get("func")]
     else:
         ft = {"float32": np.float32, "float64": np.float64}[case["dtype"]]
         bits = int(np.array(float.fromhex(case["x"]), dtype=ft).view(FMT[case["dtype"]]["ui"]))
         part = w_real(dict(dtype=case["dtype"], bits=[bits]))
+        part["violations"] = [v for v in part["violations"] if int(v["case"].get("params") or 0) == int(case.get("params") or 0)]
     return [(v["sig"], v["msg"]) for v in part["violations"]]
